@@ -10,6 +10,7 @@ import (
 func init() {
 	Register(&Prop{
 		ID: "C10", Bubble: true, Run: runC10, QuickRuns: 2500,
+		ExpectedProbes: []string{"release_overlapped_waiter_midop", "release_while_waiter_asleep"},
 		Rule: "one run = one seeded scenario (limiter kind, strategy, limit 1..3, timeout, 1..3 waiters, releases with random outcomes) under one seeded schedule; " +
 			"non-trivial = a release step executed while some waiter was parked at a scheduling point inside Acquire (between 'attempt failed' and 'asleep') or already asleep; " +
 			"distinct = distinct hashes of (decision sequence with sites, operation returns)",
